@@ -10,9 +10,9 @@ L = env.lib()
 
 ID = "C14"
 LEVEL = "exploration"
-RULE = ("(a) concurrent: counter start in {0,1,5,2^32-4..2^32-1} set on a fresh connected device (no live streams), then 2-3 concurrent opens (shell / stat / streaming_shell kept open) under the "
+RULE = ("(a) concurrent: counter start in {0,1,5,2^32-4..2^32-1} set on a fresh connected device (no live streams), then 2-3 concurrent opens (shell / stat / streaming_shell kept open / an OPEN the device never answers) under the "
         "cooperative thread scheduler with OPCODE-level preemption inside _open (every bytecode of the id allocation is a yield point) plus lock/transport yield points, Hypothesis-generated schedules and "
-        "complete enumeration of all schedules with <=1 (quick) / <=2 (thorough) preemptions for 3 workloads x 3 counter starts; asyncio task scheduler for the async API. (b) sequential histories of up to 8 opens "
+        "complete enumeration of all schedules with <=1 (quick) / <=2 (thorough) preemptions for 4 workloads x 3 counter starts; asyncio task scheduler for the async API. (b) sequential histories of up to 8 opens "
         "across the 2^32 wrap, some streams kept open. Oracle = monitor: every OPEN arg0 in [1,2^32-1]; no two streams live at the same time share arg0; every operation returns the model's value. "
         "Non-trivial: a preemption fell inside _open, or the run crossed 2^32. Distinct = case hash / (workload, start, plan).")
 ASSUMPTIONS = ["the counter is preset through the object's id-counter attribute to reach the wrap without 2^32 opens", "opcode-level tracing via sys.settrace(f_trace_opcodes) in worker threads"]
@@ -25,6 +25,7 @@ OPS = {
     "shell-b": {"op": "shell", "cmd": "b", "decode": False},
     "stat": {"op": "stat", "path": "/f"},
     "keep": {"op": "streaming_shell", "cmd": "k", "decode": False, "take": 1},
+    "dead": {"op": "shell", "cmd": "dead", "decode": False, "read_timeout_s": 0.5},      # the device never answers this OPEN: the open fails with a timeout
 }
 
 
@@ -40,7 +41,7 @@ def id_violation(out):
 
 
 def base_case(api, names, start, dev_tape=()):
-    return {"api": api, "device": {"services": SV, "fs": FS}, "dev_tape": list(dev_tape), "transport": {"flavour": "raises", "log_calls": False},
+    return {"api": api, "device": {"services": SV, "fs": FS, "ignore_open": [b"shell:dead"]}, "dev_tape": list(dev_tape), "transport": {"flavour": "raises", "log_calls": False},
             "connect": {}, "ops": [dict(OPS[n]) for n in names], "_start": start}
 
 
@@ -112,7 +113,7 @@ def strip(fn):
     return g
 
 
-ENUM_WORKLOADS = [["shell-a", "stat"], ["keep", "shell-b", "stat"], ["stat", "keep"]]
+ENUM_WORKLOADS = [["shell-a", "stat"], ["keep", "shell-b", "stat"], ["stat", "keep"], ["dead", "keep", "stat"]]
 ENUM_STARTS = [0, 2 ** 32 - 2, 2 ** 32 - 1]
 
 
